@@ -418,7 +418,7 @@ fn main() {
 '''
 
 
-def write_crate(d, project, assignments=2):
+def write_crate(d, project, assignments=2, name="h_probe"):
     shutil.rmtree(os.path.join(d, "locales"), ignore_errors=True)
     os.makedirs(os.path.join(d, "src"), exist_ok=True)
     for loc in project.locales:
@@ -431,9 +431,9 @@ def write_crate(d, project, assignments=2):
     deps = htoml[htoml.index("[dependencies]"):]
     wtoml = open(os.path.join(core.HARNESS, "Cargo.toml")).read()
     profile = wtoml[wtoml.index("[profile.dev]"):]
-    toml = ('[package]\nname = "h_probe"\nversion = "0.1.0"\nedition = "2021"\n\n[workspace]\n\n%s\n%s\n'
+    toml = ('[package]\nname = "%s"\nversion = "0.1.0"\nedition = "2021"\n\n[workspace]\n\n%s\n%s\n'
             '[package.metadata.leptos-i18n]\ndefault = %s\nlocales = %s\n' % (
-                deps, profile, json.dumps(project.locales[0]), json.dumps(project.locales)))
+                name, deps, profile, json.dumps(project.locales[0]), json.dumps(project.locales)))
     if project.namespaces:
         toml += "namespaces = %s\n" % json.dumps(project.namespaces)
     if project.inherits:
@@ -448,14 +448,15 @@ def write_crate(d, project, assignments=2):
         fh.write(src)
 
 
-def build_crate(d, timeout=2400):
+def build_crate(d, timeout=2400, name="h_probe"):
     rc, out, err = core.sh(["cargo", "build", "--offline"], cwd=d, timeout=timeout,
                            env={"CARGO_TARGET_DIR": core.TARGET, "RUSTFLAGS": "--cap-lints warn"})
     if rc != 0:
         errs = [l for l in err.splitlines() if l.startswith("error")]
         return None, "\n".join(errs[:10]) + "\n" + err[-3000:]
     exe = os.path.join(d, "h_probe")
-    shutil.copy(os.path.join(core.TARGET, "debug", "h_probe"), exe)     # the next probe crate overwrites the target binary
+    # the next probe crate of this run overwrites the target binary (the name carries seed and tier: not another run's)
+    shutil.copy(os.path.join(core.TARGET, "debug", name), exe)
     return exe, ""
 
 
